@@ -658,6 +658,9 @@ func driverCorrupt(c *Ctx) {
 			hasItem = true
 		}
 		if i%10 == 7 {
+			if !hasItem {
+				item = g.leaf(false).Build()
+			}
 			item, hasItem = ast.NewListNode(item, ast.NewListNode(ast.NewBooleanNode(true))), true // (see after-deep-refusals)
 		}
 		base := buildComplete(g, gm, item, 0).ToBytes()
